@@ -635,6 +635,10 @@ fn http_leg(rep: &mut Report) {
                 jobs.push((li, s.clone(), vec![], budget));
             }
         }
+        // correct answers in chunked transfer encoding (no Content-Length), also after a cut transfer
+        jobs.push((li, vec![HF::Chunked; 4], vec![], 0));
+        jobs.push((li, vec![HF::Chunked; 4], vec![1, 2, 4], 0));
+        jobs.push((li, vec![HF::CutAfter(1), HF::Chunked, HF::Chunked, HF::Chunked], vec![2], 1));
         // a fault hitting the second run, body ending early, and cut + fragmentation combined
         for budget in 0..=2u32 {
             jobs.push((li, vec![HF::None, HF::CutAfter(1), HF::Refuse], vec![], budget));
@@ -831,7 +835,15 @@ pub fn c07(rep: &mut Report) {
                 }
                 agg.add("subsets_with_fragmented_bodies", 1);
             }
-            lab.server.arm_based(base, file_ref, Script { faults: vec![], splits, keep_alive: case % 2 == 0 });
+            // the layout with gaps: every other subset is answered with chunked transfer encoding (no Content-Length),
+            // one HTTP chunk per 3 body bytes
+            let mut faults = vec![];
+            if lname == "gaps" && mask % 2 == 1 {
+                faults = vec![HF::Chunked; n + 2];
+                splits = (1..40).map(|i| i * 3).collect();
+                agg.add("subsets_with_chunked_transfer_encoding", 1);
+            }
+            lab.server.arm_based(base, file_ref, Script { faults, splits, keep_alive: case % 2 == 0 });
             lab.pooled.set(case % 2 == 0);
             let items = lab.read_chunks(&ranges, 0);
             let log = lab.server.log();
